@@ -31,6 +31,8 @@ type C13Case struct {
 	Confs []C13Conf `json:"confs"`
 	Ops   []C13Op   `json:"ops"`
 	Req   Req       `json:"request"`
+	// NearPair: the strings of the case are two texts equal after case folding but of different meaning
+	NearPair bool `json:"near_pair,omitempty"`
 }
 
 // strings used in several roles across configurations
@@ -79,6 +81,11 @@ func genC13(t *rapid.T) *C13Case {
 	for i := 0; i < k; i++ {
 		pool = append(pool, rapid.SampledFrom(c13Strings).Draw(t, "s"))
 	}
+	if rapid.IntRange(0, 3).Draw(t, "nearpair") == 0 {
+		// two texts that are equal once their letters are folded but do not mean the same
+		pool = rapid.SampledFrom([][]string{{"(?i)^x-\\D+$", "(?i)^x-\\d+$"}, {"\\D{3}", "\\d{3}"}, {"(?i)^(?-i:ADMIN)$", "(?i)^(?-i:admin)$"}, {"^\\S+$", "^\\s+$"}, {"[A-C]x", "[a-c]x"}}).Draw(t, "pair")
+		c.NearPair = true
+	}
 	for i := 0; i < nc; i++ {
 		cf := C13Conf{}
 		cf.Lines = append(cf.Lines, "SecRxPreFilter "+rapid.SampledFrom([]string{"On", "Off"}).Draw(t, "prefilter"))
@@ -102,6 +109,9 @@ func genC13(t *rapid.T) *C13Case {
 	c.Req.Headers = []KV{{"Host", "h"}, {rapid.SampledFrom([]string{"X-Token", "Abc", "abc", "x"}).Draw(t, "hn"), "hv"}}
 	c.Req.Cookies = []KV{{rapid.SampledFrom([]string{"Abc", "X-Tok", "ab"}).Draw(t, "cn"), "cv"}}
 	vals := []string{"abc", "aaa", "select 1", "x", "ab", "123-45-6789", "404", "admin", "zzz", "union", "\xffabc", "x1", "ABC", "c", "bc", "unionselect", "a"}
+	if c.NearPair {
+		vals = append(vals, "x-12", "x-ab", "ADMIN", "admin", "123", "abc", "   ", "Bx", "bx", "x-12", "x-ab", "ADMIN", "admin")
+	}
 	na := rapid.IntRange(2, 6).Draw(t, "nargs")
 	for i := 0; i < na; i++ {
 		c.Req.Query = append(c.Req.Query, KV{rapid.SampledFrom([]string{"a", "abc", "x", "select", "ab", "Abc", "X-Token"}).Draw(t, "an"), rapid.SampledFrom(vals).Draw(t, "av")})
@@ -290,6 +300,9 @@ func checkC13(c *C13Case) Result {
 	}
 	for r := range roles {
 		res.Labels = append(res.Labels, "role:"+r)
+	}
+	if c.NearPair {
+		res.Labels = append(res.Labels, "texts-equal-after-case-folding")
 	}
 	if len(dsContents) > 1 {
 		res.Labels = append(res.Labels, "same-dataset-name-different-content")
